@@ -30,7 +30,10 @@ Inductive tag : Type :=
 | T_dataset_no_fillvalue_msg
 | T_softlink_stored_as_object
 | T_chunk_dims_no_elem_dim
-| T_chunk_btree_addr_0.
+| T_chunk_btree_addr_0
+(* not (yet) listed: found by the specification decoders of this development, proposed in notes/c05-known-findings-proposed.json *)
+| T_compound_v3_layout      (* version 3 compound: member count in the properties (class bits 0), 4-byte member offsets *)
+| T_enum_v3_layout.         (* version 3 enumeration: (padded name, value) pairs instead of names then values *)
 
 (* the number the tie prints for a tag (tools/props/c05spec.py TAGS has the same table) *)
 Definition tag_code (t : tag) : N :=
@@ -43,6 +46,7 @@ Definition tag_code (t : tag) : N :=
   | T_snod_over_capacity => 16 | T_heap_name_offset_0 => 17 | T_attrinfo_type_0x0f => 18
   | T_dataset_no_fillvalue_msg => 19 | T_softlink_stored_as_object => 20
   | T_chunk_dims_no_elem_dim => 21 | T_chunk_btree_addr_0 => 22
+  | T_compound_v3_layout => 23 | T_enum_v3_layout => 24
   end.
 
 Definition tolerance := tag -> bool.
